@@ -6,6 +6,7 @@ mod simple;
 mod table;
 mod mddrun;
 mod solve;
+mod sched;
 
 use std::io::{BufRead, Write};
 
@@ -32,6 +33,7 @@ fn main() {
         "fringe" => simple::run_fringe(&lines, &mut out),
         "mdd" => mddrun::run(&lines, &mut out),
         "solve" => solve::run(&lines, &mut out),
+        "par" => sched::run(&lines, &mut out),
         _ => { eprintln!("unknown command {cmd}"); std::process::exit(2); }
     }
     out.flush().unwrap();
